@@ -951,6 +951,7 @@ func runC16(c *Ctx, tier string) {
 	runFirstKeyByPosition(c, "C16-B3")
 	runSeekLookupScansAll(c, "C16-L1")
 	runConstCompareRefusesNull(c, "C16-N2")
+	runCompareUsesBothOperands(c, "C16-C2")
 	checkNullsMax(c, "C16-N1")
 }
 
